@@ -38,7 +38,7 @@ fn front_end_panic(text: &str) -> Option<String> {
 }
 
 /// (property, key, observation) — observation returns the signature if the finding still reproduces.
-pub const WITNESSES: [W; 16] = [
+pub const WITNESSES: [W; 17] = [
     ("C01", "c01-cross-module-instantiation", || {
         let src = two("use \"a.oal\";\nres / on get -> f <>;\n", ("a.oal", "let f x = { 'p x };\n"));
         match pipeline::run(&src, None) {
@@ -138,6 +138,48 @@ pub const WITNESSES: [W; 16] = [
             Some("C05 witness c05-annotation-order: permuting two resources changes the shared component (use-site annotation leaks, order dependent)".into())
         } else {
             None
+        }
+    }),
+    ("C18", "c18-rename-shared-qualifier", || {
+        // two imports under one qualifier (the later one wins): renaming the qualifier at the first `use` renames that
+        // `use` and every `q.` use, which then denote the first module
+        use crate::drive::cli::{run_cli, write_sources, TempDir};
+        use crate::drive::lsp::{file_uri, ClientDoc, Lsp};
+        let main = "use \"s.oal\" as q;\nuse \"a.oal\" as q;\nres / on get -> <q.v>;\n";
+        let src = Sources {
+            files: vec![("main.oal".into(), main.into()), ("a.oal".into(), "let v = { 'a num };\n".into()), ("s.oal".into(), "let v = \"shadow\";\n".into())],
+        };
+        let dir = TempDir::new("w18");
+        write_sources(&dir.path, &src);
+        std::fs::write(dir.path.join("oal.toml"), "[api]\nmain = \"main.oal\"\ntarget = \"out.yaml\"\n").ok()?;
+        if !run_cli(&dir.path, "main.oal", "out.yaml", None).success() {
+            return None;
+        }
+        let mut lsp = Lsp::start(&dir.path, None).ok()?;
+        let uri = file_uri(&dir.path.join("main.oal"));
+        let col = main.find(" q;").map(|i| i as u32 + 1)?;
+        let prep = lsp.position_request("textDocument/prepareRename", &uri, 0, col).ok()?;
+        if prep.is_null() {
+            lsp.shutdown();
+            return None;
+        }
+        let edit = lsp.rename(&uri, 0, col, "zfresh").ok()?;
+        lsp.shutdown();
+        let mut doc = ClientDoc::new(main);
+        let mut es: Vec<(usize, usize, String)> = Vec::new();
+        for e in edit.get("changes")?.get(&uri)?.as_array()? {
+            let p = |k: &str| [e["range"][k]["line"].as_u64().unwrap_or(0) as u32, e["range"][k]["character"].as_u64().unwrap_or(0) as u32];
+            es.push((doc.offset_of(p("start")), doc.offset_of(p("end")), e["newText"].as_str().unwrap_or("").to_owned()));
+        }
+        es.sort();
+        for (s, t, txt) in es.iter().rev() {
+            doc.replace(*s, *t, txt);
+        }
+        std::fs::write(dir.path.join("main.oal"), doc.text()).ok()?;
+        if run_cli(&dir.path, "main.oal", "out2.yaml", None).success() {
+            None
+        } else {
+            Some("C18 rename-breaks-acceptance at import-qualifier [qualifier-shared-by-two-imports]".into())
         }
     }),
     ("C03", "c03-operationid-collision", || {
